@@ -183,13 +183,6 @@ func (a *UDPAssociation) ReadLoop() {
 			continue
 		}
 
-		// Update actual client address on first datagram
-		a.mu.Lock()
-		if a.ActualClientAddr == nil {
-			a.ActualClientAddr = clientAddr
-		}
-		a.mu.Unlock()
-
 		// Verify client address if expected address was specified
 		a.mu.RLock()
 		expected := a.ExpectedClientAddr
@@ -201,6 +194,15 @@ func (a *UDPAssociation) ReadLoop() {
 				continue
 			}
 		}
+
+		// Record the client address on the first datagram that passed the
+		// check: replies are sent to this address, so it must never be taken
+		// from a datagram that is going to be ignored.
+		a.mu.Lock()
+		if a.ActualClientAddr == nil {
+			a.ActualClientAddr = clientAddr
+		}
+		a.mu.Unlock()
 
 		// Parse SOCKS5 UDP header
 		header, payload, err := ParseUDPHeader(buf[:n])
